@@ -37,7 +37,7 @@ static void cases(int n, int betaInv, bool normalised, vt::rng& g, bool thorough
     static int const mins[3][2] = {{0, 1}, {1, 10}, {1, 5}};
     for (long code = 0; code != total; ++code)
     {
-        if (!thorough && n == 4 && g.below(8) != 0) continue;
+        if (n == 4 && g.below(thorough ? 3 : 8) != 0) continue;
         std::vector<int> w, r;
         long c = code;
         for (int k = 0; k != n; ++k) { w.push_back((int) (c % 4)); c /= 4; }
